@@ -19,8 +19,9 @@
    pySDC layout; implicit = coll.implicit.
 
    Quirks of the code that are modelled as they are:
-   * the right-hand side of stage m+1 is evaluated at time  t0 + dt*nodes[m]  (the node of the stage
-     BEFORE it; build_f, one line above, uses nodes[j] for stage j);
+   * (history) up to /repo commit e4532e8 the right-hand side of stage m+1 was evaluated at time
+     t0 + dt*nodes[m], the node of the stage BEFORE it; the fixed code — modelled here — uses the stage's own
+     node nodes[m+1], like build_f one line above (regression fact: rkn_old_stage_time_observable);
    * in the implicit branch the new fields are stored at the hard-wired index 3 (L.f[3]), the Boris
      solve is repeated for every j of the inner loop, L.f[0] is re-evaluated at every stage and
      copied to L.f[m+1];
@@ -76,7 +77,7 @@ Section RKNModel.
         let f2 := upd f1 0 (feval (p' 0) (v' 0) t0) in                       (* L.f[0] = P.eval_f(L.u[0], L.time) *)
         upd f2 (S m) (f2 0)                                                  (* L.f[m+1] = P.dtype_f(L.f[0]) *)
       else if Nat.eqb m (M - 1) then f1                                     (* if m != num_nodes - 1: *)
-      else upd f1 (S m) (feval rpos rvel (rkn_tn m))                        (*   L.f[m+1] = P.eval_f(L.u[m+1], t0 + dt*nodes[m]) *)
+      else upd f1 (S m) (feval rpos rvel (rkn_tn (S m)))                    (*   L.f[m+1] = P.eval_f(L.u[m+1], t0 + dt*nodes[m+1]) *)
     in {| rp := p'; rv := v'; rf := f' |}.
 
   (* update_nodes() *)
